@@ -429,6 +429,9 @@ class Interp(object):
             raise _Continue()
         elif k == 'NullStmt':
             pass
+        elif k == 'CXXTryStmt':
+            # the guarded block only: a throw leaves the interpreted function (see CXXThrowExpr), handlers are not modelled
+            self.exec_stmt(fn, n['ch'][0], env)
         elif k in ('CaseStmt', 'DefaultStmt'):
             self.exec_stmt(fn, n['sub'], env)
         else:
@@ -846,6 +849,8 @@ class Interp(object):
             if cnt.lo < 0 or cnt.lo > 65536:
                 raise Unsupported('array new of %d elements at %s' % (cnt.lo, fn.loc(i)))
             return PV(Arr([AV.const(0) for _ in range(cnt.lo)], 'new'), 0)
+        if k == 'CXXDeleteExpr':
+            return None         # storage release has no value effect in this domain
         if k == 'CXXThrowExpr':
             raise _Return(('throw', fn.loc(i)))
         if k == 'UnaryExprOrTypeTraitExpr':
@@ -992,6 +997,22 @@ class Interp(object):
                     if e.is_const() and e.lo == 0:
                         return AV.const(j - p.off)
                 raise OutOfBounds('strlen over %s without terminator' % p.arr.name)
+        if bcn in ('memcpy', '__builtin_memcpy', 'memmove', '__builtin_memmove') and len(args) == 3:
+            pd, ps, cnt = self.rvalue(fn, args[0], env), self.rvalue(fn, args[1], env), self.rvalue(fn, args[2], env)
+            if isinstance(pd, Arr):
+                pd = PV(pd, 0)
+            if isinstance(ps, Arr):
+                ps = PV(ps, 0)
+            if isinstance(pd, PV) and isinstance(ps, PV) and isinstance(cnt, AV):
+                if not cnt.is_const():
+                    self.split_on(cnt.deps)
+                    raise Unsupported('memcpy of a non-constant count')
+                if cnt.lo < 0:
+                    raise OutOfBounds('memcpy with negative count %d' % cnt.lo)
+                src = [self.load(('elem', PV(ps.arr, ps.off + j))) for j in range(cnt.lo)]
+                for j, e in enumerate(src):
+                    self.store(('elem', PV(pd.arr, pd.off + j)), e)
+                return pd
         if bcn in ('memcmp', '__builtin_memcmp') and len(args) == 3:
             pa, pb, cnt = self.rvalue(fn, args[0], env), self.rvalue(fn, args[1], env), self.rvalue(fn, args[2], env)
             if isinstance(pa, PV) and isinstance(pb, PV) and isinstance(cnt, AV) and cnt.is_const():
